@@ -182,7 +182,6 @@ KNOWN = [
     # match that is no instance), predicate
     ("C06-D11", "miss", lambda c: has_backtracking_or(c["pattern"])),
     ("C06-F5", "miss", pred_prefix_multi),
-    ("C06-F1", "bogus", pred_extra_outputs),
     ("C06-F2", "bogus", pred_named_var_check),
     ("C06-F3", "bogus", pred_check_in_alt),
     ("C06-F4", "bogus", pred_alt_node_shared),
@@ -531,6 +530,8 @@ def main(run: core.Run) -> None:
     problems: list = []
     known_counts: Counter = Counter()
     findings = {f["id"] for f in run.open_findings()}
+    if not run.replay_path:
+        check_fixed_findings(run)
 
     if run.replay_path:
         body = json.loads(open(run.replay_path).read())
@@ -683,6 +684,43 @@ def fingerprint_drift():
     return [f"{rel}:{q}" for rel, d in cur.items() for q, h in d.items() if rec.get(rel, {}).get(q) not in (None, h)]
 
 
+def probe_revisions():
+    """Behaviour of the working tree on the witnesses of the two fixed findings; returns (flags, replay cases)."""
+    def node(op, ins, outs=(None,)):
+        return {"dom": ["e", ""], "op": ["e", op], "aoa": None, "aoi": None, "check": None, "inputs": ins,
+                "attrs": [], "outputs": list(outs)}
+
+    x = ["V", 1, "x", False, None]
+    y = ["V", 2, "y", False, None]
+    g = {"nodes": [{"dom": "", "op": "D2", "ov": "", "inputs": [0], "attrs": [], "outputs": [1]}],
+         "outputs": [1], "consts": [], "foreign": [], "foreign_kind": "free", "ext": []}
+    p1 = {"cond": True, "inputs": ["x"], "nodes": [node("D2", [x], (None, None))], "outputs": [["O", 0, 0]]}
+    r1 = L.run_real(L.build_pattern(p1), L.build_graph(g), 0, False)
+    p2 = {"cond": True, "inputs": ["x", "y"],
+          "nodes": [node("Neg", [x]), node("Add", [["OR", 4, None, None, None, [["O", 0, 0], x]], y])],
+          "outputs": [["O", 1, 0]]}
+    r2 = L.run_real_commute(L.build_pattern(p2), L.build_graph(g), 0, False, True)
+    flags = ("0" if " M1" in r1 else "1") + ("0" if r2 == "ERR:valueerror" else "1")
+    c1 = {"pattern": p1, "graph": g, "root": 0, "rm": False, "commute": False}
+    c2 = {"pattern": p2, "graph": g, "root": 0, "rm": False, "commute": True}
+    return flags, (c1, c2), (r1, r2)
+
+
+def check_fixed_findings(run) -> None:
+    """A fixed entry suppresses nothing: the model is pinned to the repaired revision (L.FLAGS = "11"); if the
+    working tree shows the pre-fix behaviour of a finding listed as fixed, that is a violation with its witness."""
+    flags, cases, outs = probe_revisions()
+    run.coverage["fixed_findings_probe"] = {"F1_repaired": flags[0] == "1", "F7a_repaired": flags[1] == "1"}
+    if flags[0] != "1":
+        run.violation({"case": cases[0], "detail": outs[0], "finding": "C06-F1 (fixed by 778bd07)"},
+                      "fixed finding C06-F1 is back: a pattern node with more outputs than the node is reported as a "
+                      f"match without outputs: {outs[0]}")
+    if flags[1] != "1":
+        run.violation({"case": cases[1], "detail": outs[1], "finding": "C06-F7a (fixed by e372708)"},
+                      "fixed finding C06-F7a is back: GraphPattern.commute() raises ValueError for a BacktrackingOr "
+                      f"without tag_var: {outs[1]}")
+
+
 def special_witnesses(run, findings):
     """findings whose witness is an exception (kept out of the correspondence stream)"""
     def node(op, ins, outs=(None,), attrs=()):
@@ -701,16 +739,10 @@ def special_witnesses(run, findings):
             run.known("C06-F6", "op.R(x, axes=1) against a node whose `axes` is INTS [1]: Pattern.match raises "
                       "TypeError ('int' object is not iterable) instead of reporting no match")
     if "C06-F7" in findings:
-        p1 = {"cond": True, "inputs": ["x", "y"],
-              "nodes": [node("Neg", [x]), node("Add", [["OR", 4, None, None, None, [["O", 0, 0], x]], y])],
-              "outputs": [["O", 1, 0]]}
         p2 = {"cond": True, "inputs": ["x", "y", "z"], "nodes": [node("Max", [x, y, z])], "outputs": [["O", 0, 0]]}
-        bg = L.build_graph(g)
-        r1 = L.run_real_commute(L.build_pattern(p1), bg, 0, False, True)
-        r2 = L.run_real_commute(L.build_pattern(p2), bg, 0, False, True)
-        if r1 == "ERR:valueerror" or r2 == "ERR:assertion":
-            run.known("C06-F7", f"GraphPattern.commute() raises: Add(OrValue([Neg(x), x]), y) -> {r1} (BacktrackingOr.clone "
-                      f"passes tag_values without tag_var); Max(x, y, z) -> {r2} (swap asserts two inputs)")
+        r2 = L.run_real_commute(L.build_pattern(p2), L.build_graph(g), 0, False, True)
+        if r2 == "ERR:assertion":
+            run.known("C06-F7", f"GraphPattern.commute() raises for Max(x, y, z): {r2} (swap asserts two inputs)")
 
 
 def itertools_islice(it, n):
